@@ -23,7 +23,7 @@ import (
 // FCfg is the generated filter configuration.
 type FCfg struct {
 	Overrides map[string]string
-	Wrapper   string // ok | absent | failing | foreign
+	Wrapper   string // ok | absent | failing (from the k-th call on) | failing-once (only the k-th call) | foreign
 	FailAt    int
 	Salt      bool
 	Info      bool
@@ -39,8 +39,8 @@ func (c FCfg) String() string {
 	}
 	sort.Strings(ks)
 	w := c.Wrapper
-	if w == "failing" {
-		w = fmt.Sprintf("failing@%d", c.FailAt)
+	if w == "failing" || w == "failing-once" {
+		w = fmt.Sprintf("%s@%d", w, c.FailAt)
 	}
 	return fmt.Sprintf("filter{overrides=[%s] wrapper=%s salt=%v info=%v}", strings.Join(ks, " "), w, c.Salt, c.Info)
 }
@@ -56,8 +56,8 @@ func GenFCfg(t *rapid.T, faults bool) FCfg {
 		c.Overrides = nil
 	}
 	if faults {
-		c.Wrapper = rapid.SampledFrom([]string{"ok", "ok", "ok", "ok", "ok", "ok", "ok", "ok", "absent", "failing", "foreign"}).Draw(t, "wrapper")
-		c.FailAt = rapid.IntRange(0, 3).Draw(t, "failAt")
+		c.Wrapper = rapid.SampledFrom([]string{"ok", "ok", "ok", "ok", "ok", "ok", "ok", "ok", "absent", "failing", "failing-once", "failing-once", "foreign"}).Draw(t, "wrapper")
+		c.FailAt = rapid.IntRange(0, 5).Draw(t, "failAt")
 	}
 	c.Salt = rapid.Bool().Draw(t, "salt")
 	c.Info = rapid.Bool().Draw(t, "info")
@@ -71,6 +71,7 @@ func (c FCfg) PCfg() payload.Cfg { return payload.Cfg{Overrides: c.Overrides} }
 type foreignWrapper struct {
 	inner  *aead.Wrapper
 	failAt int
+	once   bool
 	n      int
 }
 
@@ -83,7 +84,7 @@ func (w *foreignWrapper) SetConfig(ctx context.Context, o ...wrapping.Option) (*
 }
 func (w *foreignWrapper) Encrypt(ctx context.Context, p []byte, o ...wrapping.Option) (*wrapping.BlobInfo, error) {
 	w.n++
-	if w.failAt >= 0 && w.n > w.failAt {
+	if w.failAt >= 0 && ((!w.once && w.n > w.failAt) || (w.once && w.n == w.failAt+1)) {
 		return nil, errors.New("harness wrapper: injected encryption failure")
 	}
 	return w.inner.Encrypt(ctx, p, o...)
@@ -101,6 +102,8 @@ func (c FCfg) Filter() *encrypt.Filter {
 		f.Wrapper = Key.Wrapper()
 	case "failing":
 		f.Wrapper = &foreignWrapper{inner: Key.Wrapper(), failAt: c.FailAt}
+	case "failing-once":
+		f.Wrapper = &foreignWrapper{inner: Key.Wrapper(), failAt: c.FailAt, once: true}
 	case "foreign":
 		f.Wrapper = &foreignWrapper{inner: Key.Wrapper(), failAt: -1}
 	}
